@@ -11,7 +11,7 @@ from checks import c13
 PROP = 'C16'
 TECHNIQUE = 'deterministic simulation: every request reaching the fake S3 service re-verified by an independent SigV4 implementation; simulated clock incl. date roll-over and retries'
 LEVEL = 'exploration'
-RULE = ('one case = a seeded sequence of 8..30 adapter operations (upload of bytes, streamed upload, HEAD, GET, streamed GET, DELETE, prefix '
+RULE = ('one case = a seeded sequence of 8..30 adapter operations (upload of bytes, streamed upload - half of them from a stream whose read(n) returns short counts before the end -, HEAD, GET, streamed GET, DELETE, prefix '
         'listing with server page sizes 1..3 and continuation tokens containing +,/,=,&,%,space and non-ASCII) on the REAL S3Compatible / S3 '
         'adapter with seeded object names and prefixes over printable ASCII (space + = & % * ~ quotes parentheses ? #) and non-ASCII, seeded '
         'endpoint (lower-case, mixed case, explicit non-default port, explicit default port, http/https), region, credentials, a simulated '
